@@ -21,6 +21,10 @@ def start_session(exe, seed, cfg):
     s = simlib.Sim(exe)
     s.cfg = cfg
     s.op(f"net seed {seed}")
+    if cfg.get("tickcost0"):
+        # dispatching costs no virtual time from the very first timer on: every deadline in the session is then a whole
+        # millisecond and no timer is ever re-armed with a sub-millisecond remainder (paired runs keep identical timing)
+        s.op("net tickcost 0")
     s.op(f"net latency 1 {cfg['lat']}")
     s.op(f"net loss {cfg['loss']} {cfg['rc'] - 1}")
     s.op(f"net dup {cfg['dup']}")
